@@ -36,24 +36,39 @@ Fixpoint upd {A} (l : list A) (i : Z) (f : A -> A) : list A :=
 Section Acc.
 Context {T : Type} (N : NumOps T).
 
-(* one iteration of the outer loop: start cell i *)
-Definition walk_apply (fuel : nat) (nrows ncols : Z) (fd : list Z) (field : list T)
+(* one iteration of the outer loop, start cell i: [v d] is added to every
+   visited cell d, then the terminal cell is overwritten with no-data *)
+Definition walk_apply_gen (v : Z -> T) (fuel : nat) (nrows ncols : Z) (fd : list Z)
            (nodata : T) (acc : list T) (i : Z) : list T :=
   let (p, t) := dpath fuel nrows ncols fd i in
-  let v := zn field i (n0 N) in
-  let acc1 := fold_left (fun a d => upd a d (fun x => nadd N x v)) p acc in
+  let acc1 := fold_left (fun a d => upd a d (fun x => nadd N x (v d))) p acc in
   match t with
   | Some c => upd acc1 c (fun _ => nodata)
   | None => acc1
   end.
 
-(* while(accumulated_cells <= max): at most max+1 iterations *)
-Definition accumulate (nrows ncols maxcells : Z) (nodata : T) (fd : list Z) (field : list T)
+(* the repaired kernel: the START cell's value is added along its walk *)
+Definition walk_apply (fuel : nat) (nrows ncols : Z) (fd : list Z) (field : list T)
+           (nodata : T) (acc : list T) (i : Z) : list T :=
+  walk_apply_gen (fun _ => zn field i (n0 N)) fuel nrows ncols fd nodata acc i.
+
+(* the kernel at the pinned commit: each visited cell received ITS OWN value again *)
+Definition walk_apply_pinned (fuel : nat) (nrows ncols : Z) (fd : list Z) (field : list T)
+           (nodata : T) (acc : list T) (i : Z) : list T :=
+  walk_apply_gen (fun d => zn field d (n0 N)) fuel nrows ncols fd nodata acc i.
+
+(* while(accumulated_cells <= max): at most max+1 iterations;
+   the accumulation starts as a copy of the field (grid.py) *)
+Definition accumulate_with (wa : nat -> Z -> Z -> list Z -> list T -> T -> list T -> Z -> list T)
+           (nrows ncols maxcells : Z) (nodata : T) (fd : list Z) (field : list T)
   : option (list T) :=
   if maxcells <? 1 then None
   else if nrows <? 1 then None
-  else Some (fold_left (walk_apply (Z.to_nat (maxcells + 1)) nrows ncols fd field nodata)
+  else Some (fold_left (wa (Z.to_nat (maxcells + 1)) nrows ncols fd field nodata)
                        (zseq 0 (Z.to_nat (nrows * ncols))) field).
+
+Definition accumulate := accumulate_with walk_apply.
+Definition accumulate_pinned := accumulate_with walk_apply_pinned.
 End Acc.
 
 (* ---------------- correspondence glue ---------------- *)
